@@ -207,7 +207,7 @@ def gen_script(rnd, k):
     cards = g.cards()
     tags = set()
     kind = g.weighted([(6, "plain"), (3, "define-fun"), (2, "swap-let"), (2, "def-capture"), (2, "let-capture"),
-                       (1, "def-shadow"), (2, "get-value"), (2, "stack")])
+                       (1, "def-shadow"), (2, "get-value"), (2, "stack"), (2, "chain")])
     nform = g.weighted([(5, 1), (3, 2), (1, 3)]) if kind != "stack" else rnd.randint(2, 4)
     forms = [g.term(BOOL) for _ in range(nform)]
     ns = set()
@@ -232,6 +232,19 @@ def gen_script(rnd, k):
     if kind == "plain":
         for f in forms:
             body_lines.append("(assert %s)" % w.term_with_lets(f, ns))
+    elif kind == "chain":
+        # chainable and pairwise operators with three or four arguments, of every sort they apply to
+        T = g.choice([INT, REAL, BV(2), BOOL, BOOL])
+        ts = [g.term(T, 2) for _ in range(rnd.randint(3, 4))]
+        if g.pct(30):
+            ts[-1] = ts[0]
+        ops_ = ["=", "distinct"] + (["<", "<=", ">", ">="] if T in (INT, REAL) else [])
+        o = g.choice(ops_)
+        extra_decl_forms = list(ts)
+        forms = []
+        body_lines.append("(assert (%s %s))" % (o, " ".join(w.term(t) for t in ts)))
+        tags.add("chain:%s:%s" % (o, B.tystr(T).rstrip("0123456789")))
+        tags.add("chainable-or-pairwise")
     elif kind == "stack":
         # assertion-stack commands in every spelling: (push) (push 0) (push 2) (pop) (pop 0) ...
         depth = 0
